@@ -172,6 +172,7 @@ func (p *Program) pairOK(buf, err ssa.Value) string {
 
 func ruleC01R2(r *Run) {
 	p := r.P
+	rulePairAtomic(r)
 	type spec struct {
 		fn       string
 		bufIdx   int
@@ -467,6 +468,7 @@ func ruleC05R1(r *Run) {
 		okTB, bo := tbGuard(st)
 		r.Check("(*shrinker).accept#store."+what+".same-failure", st.Pos(), okTB && bo != nil && dominates(bo, st), "written only after the candidate's run produced the same traceback as the current failure", what+" is written without the guard traceback(err1) == traceback(s.err): minimisation can move to a different failure")
 	}
+	rulePairAtomic(r)
 	// the comparison reads the current best before any write
 	for _, st := range recStores {
 		r.Check("(*shrinker).accept#compare-before-write", st.Pos(), dominates(cmp, st), "the comparison reads s.rec before it is written", "s.rec is written before the comparison")
@@ -1044,3 +1046,59 @@ func ruleC05R6(r *Run) {
 
 // variadicOrSlice returns v itself (slices passed with ...).
 func (p *Program) variadicOrSlice(v ssa.Value) ssa.Value { return v }
+
+
+// rulePairAtomic: accept replaces the shrinker's (rec, err) state as a pair. Once one of them has been stored, accept
+// cannot return (it may only panic, which aborts minimisation with that run's own error) before the other one is stored
+// too: shrink returns (s.rec.data, s.err), and a torn pair is a buffer reported with the failure of another buffer.
+func rulePairAtomic(r *Run) {
+	p := r.P
+	fn := r.MustFn("(*shrinker).accept")
+	if fn == nil {
+		return
+	}
+	var recStores, errStores []*ssa.Store
+	for _, fa := range p.fieldAccesses("shrinker") {
+		if !p.within(fa.Fn, fn) || fa.Kind != "write" {
+			continue
+		}
+		switch fa.Field {
+		case "rec":
+			recStores = append(recStores, fa.Instr.(*ssa.Store))
+		case "err":
+			errStores = append(errStores, fa.Instr.(*ssa.Store))
+		}
+	}
+	isIn := func(set []*ssa.Store) func(ssa.Instruction) bool {
+		return func(in ssa.Instruction) bool {
+			for _, s := range set {
+				if in == ssa.Instruction(s) {
+					return true
+				}
+			}
+			return false
+		}
+	}
+	check := func(name string, first, second []*ssa.Store) {
+		for _, st := range first {
+			// already preceded by the partner on every path?
+			dominated := false
+			for _, o := range second {
+				if dominates(o, st) {
+					dominated = true
+				}
+			}
+			torn := false
+			if !dominated {
+				for _, ret := range returnsOf(fn) {
+					if reachable(st, ret, isIn(second)) {
+						torn = true
+					}
+				}
+			}
+			r.Check("(*shrinker).accept#pair-atomic."+name, st.Pos(), !torn, "after this store accept cannot return before the other half of (s.rec, s.err) is stored", "accept can return after storing "+p.expr(st.Addr)+" without storing the other half of the (s.rec, s.err) pair: shrink then reports a buffer together with the failure of a different buffer")
+		}
+	}
+	check("err", errStores, recStores)
+	check("rec", recStores, errStores)
+}
